@@ -302,3 +302,41 @@ Example sphinx_full_example :
   | _ => False
   end.
 Proof. vm_compute. repeat split. Qed.
+
+(* ---------------- the subjects the model runs on are well-formed ---------------- *)
+From Verif Require Import Model.C12_run Proofs.C12_regex2.
+
+Lemma ascii_ch_wf : forall c, (c < 128)%N -> ch_wf (ascii_ch c) = true.
+Proof.
+  intros c L. unfold ch_wf, ascii_ch. cbn [cp c_word c_space c_digit c_ci c_low].
+  apply N.ltb_lt in L. rewrite L. rewrite !Bool.eqb_reflx, !N.eqb_refl. reflexivity.
+Qed.
+
+Lemma map_opt_forall :
+  forall {A B} (f : A -> option B) (P : B -> Prop),
+    (forall a b, f a = Some b -> P b) -> forall l r, map_opt f l = Some r -> Forall P r.
+Proof.
+  intros A B f P H. induction l as [|a l IH]; intros r E; simpl in E.
+  - inversion E. constructor.
+  - destruct (f a) as [b|] eqn:Fa; [|discriminate]. destruct (map_opt f l) as [bs|] eqn:Fl; [|discriminate].
+    inversion E; subst. constructor; [eapply H; eauto|apply IH; reflexivity].
+Qed.
+
+Lemma dec_ch_wf : forall s x, dec_ch s = Some x -> ch_wf x = true.
+Proof.
+  intros s x H. unfold dec_ch in H. destruct s as [z|str|l].
+  - destruct (as_N (SInt z)) as [c|]; [|discriminate]. destruct (N.ltb c 128) eqn:L; [|discriminate].
+    inversion H; subst. apply ascii_ch_wf. apply N.ltb_lt. exact L.
+  - discriminate.
+  - repeat (match type of H with context [match ?t with _ => _ end] => destruct t eqn:?; try discriminate end).
+    inversion H; subst. assumption.
+Qed.
+
+Theorem dec_text_wf : forall s t, dec_text s = Some t -> wf_text t.
+Proof.
+  intros s t H. unfold dec_text in H. destruct s as [z|str|l]; [discriminate| |].
+  - eapply map_opt_forall; [|exact H]. intros a b E. cbv beta in E.
+    destruct (N.ltb (Ascii.N_of_ascii a) 128) eqn:L; [|discriminate]. inversion E; subst.
+    apply ascii_ch_wf. apply N.ltb_lt. exact L.
+  - eapply map_opt_forall; [|exact H]. intros a b E. eapply dec_ch_wf; eauto.
+Qed.
